@@ -19,6 +19,7 @@ import (
 	"strings"
 
 	"golang.org/x/tools/go/ssa"
+	"golang.org/x/tools/go/ssa/ssautil"
 )
 
 type mapRange struct {
@@ -685,6 +686,64 @@ func checkExitValues(p *Prog, mr *mapRange, from, to *ssa.BasicBlock, reason fun
 
 // sortedAfterLoop: the collected value (header phi, slot or field address) is passed to a sort call that dominates every other use after the loop.
 func sortedAfterLoop(fn *ssa.Function, lp *loopInfo, cv ssa.Value, eff *effects) bool {
+	return sortedBeforeUse(fn, lp, cv, eff, 0)
+}
+
+// collectorCallers: the call sites, in fn's package, of fn or of an instance of the generic fn.
+func collectorCallers(fn *ssa.Function) (calls []*ssa.Call, exported bool) {
+	if o, ok := fn.Object().(*types.Func); ok && o.Exported() {
+		exported = true
+	}
+	for g := range allFunctionsOf(fn.Prog) {
+		root := g
+		for root.Parent() != nil {
+			root = root.Parent()
+		}
+		if root.Pkg != fn.Pkg && !(root.Origin() != nil && root.Origin().Pkg == fn.Pkg) {
+			continue
+		}
+		eachInstr(g, func(_ *ssa.BasicBlock, in ssa.Instruction) {
+			ci, ok := in.(ssa.CallInstruction)
+			if !ok {
+				return
+			}
+			sc := ci.Common().StaticCallee()
+			if sc == nil || !(sc == fn || sc.Origin() == fn) {
+				// the function used as a value: callers unknown
+				var ops []*ssa.Value
+				for _, o := range in.Operands(ops) {
+					if f, ok := (*o).(*ssa.Function); ok && (f == fn || f.Origin() == fn) {
+						exported = true
+					}
+				}
+				return
+			}
+			if call, ok := in.(*ssa.Call); ok {
+				calls = append(calls, call)
+			} else {
+				exported = true // go / defer: result dropped, but keep it simple
+			}
+		})
+	}
+	return
+}
+
+var allFuncsCache = map[*ssa.Program]map[*ssa.Function]bool{}
+
+func allFunctionsOf(prog *ssa.Program) map[*ssa.Function]bool {
+	if m, ok := allFuncsCache[prog]; ok {
+		return m
+	}
+	m := ssautil.AllFunctions(prog)
+	allFuncsCache[prog] = m
+	return m
+}
+
+// sortedBeforeUse: every use of the collected slice cv outside the loop (lp may be nil: cv is then a value the
+// function obtained from a collecting helper) comes after a sort of it. A function that only returns what it collected
+// is a collecting helper: the obligation passes to each of its callers in the package.
+func sortedBeforeUse(fn *ssa.Function, lp *loopInfo, cv ssa.Value, eff *effects, depth int) bool {
+	inLoop := func(b *ssa.BasicBlock) bool { return lp != nil && lp.Blocks[b] }
 	type use struct {
 		in   ssa.Instruction
 		sort bool
@@ -698,6 +757,9 @@ func sortedAfterLoop(fn *ssa.Function, lp *loopInfo, cv ssa.Value, eff *effects)
 		if mi, ok := v.(*ssa.MakeInterface); ok {
 			return isCV(mi.X)
 		}
+		if ct, ok := v.(*ssa.ChangeType); ok {
+			return isCV(ct.X)
+		}
 		if la := loadAddr(v); la != nil {
 			if la == cv {
 				return true
@@ -707,7 +769,7 @@ func sortedAfterLoop(fn *ssa.Function, lp *loopInfo, cv ssa.Value, eff *effects)
 			}
 		}
 		// exit phis merging cv with its initial value
-		if phi, ok := v.(*ssa.Phi); ok && !lp.Blocks[phi.Block()] {
+		if phi, ok := v.(*ssa.Phi); ok && !inLoop(phi.Block()) {
 			for _, e := range phi.Edges {
 				if e == cv {
 					return true
@@ -717,7 +779,7 @@ func sortedAfterLoop(fn *ssa.Function, lp *loopInfo, cv ssa.Value, eff *effects)
 		return false
 	}
 	eachInstr(fn, func(b *ssa.BasicBlock, in ssa.Instruction) {
-		if lp.Blocks[b] {
+		if inLoop(b) {
 			return
 		}
 		var ops []*ssa.Value
@@ -735,6 +797,9 @@ func sortedAfterLoop(fn *ssa.Function, lp *loopInfo, cv ssa.Value, eff *effects)
 				continue
 			}
 			if _, isMI := in.(*ssa.MakeInterface); isMI {
+				continue
+			}
+			if _, isCT := in.(*ssa.ChangeType); isCT {
 				continue
 			}
 			if st, isSt := in.(*ssa.Store); isSt && st.Addr == cv && !isCV(st.Val) {
@@ -763,7 +828,36 @@ func sortedAfterLoop(fn *ssa.Function, lp *loopInfo, cv ssa.Value, eff *effects)
 		}
 	}
 	if len(sorts) == 0 {
-		return false
+		// returned as collected and nothing else: a collecting helper; each caller in the package must sort first
+		onlyReturned := depth < 3
+		for _, u := range uses {
+			if _, isRet := u.in.(*ssa.Return); !isRet {
+				onlyReturned = false
+			}
+		}
+		if !onlyReturned || fn.Signature.Results().Len() != 1 {
+			return false
+		}
+		calls, open := collectorCallers(fn)
+		if open {
+			return false
+		}
+		for _, call := range calls {
+			g := call.Parent()
+			var got ssa.Value = call
+			// a result kept in a captured local: the slot stands for it
+			if refs := call.Referrers(); refs != nil && len(*refs) == 1 {
+				if st, ok := (*refs)[0].(*ssa.Store); ok {
+					if al, ok := st.Addr.(*ssa.Alloc); ok && st.Val == ssa.Value(call) {
+						got = al
+					}
+				}
+			}
+			if !sortedBeforeUse(g, nil, got, eff, depth+1) {
+				return false
+			}
+		}
+		return true
 	}
 	for _, u := range uses {
 		if u.sort {
